@@ -207,6 +207,7 @@ func run(cfg *hv.RunCfg) error {
 			k := classKey{h.kind, h.summary}
 			count[k]++
 			rep.Hist("HIT:" + h.kind + ":" + h.summary)
+			rep.Hist("HITMODE:" + ci.mode + ":" + h.kind)
 			rep.Hist("HITTEXT:" + h.kind + ":" + hitSkeleton(h, canaries(back.frames)))
 			f := hv.Failure{Kind: h.kind, Input: text,
 				Detail: fmt.Sprintf("diagnostic %q: canary %q found in: %s", h.summary, h.canary, h.where),
